@@ -92,7 +92,7 @@ func (r *report) evaluate(hs []*harnessInfo, stats []*interp.HarnessStats, rb *r
 		var order []string
 		for _, f := range st.Findings {
 			switch f.Kind {
-			case "assert", "panic", "exit", "deadlock", "hang":
+			case "assert", "panic", "exit", "deadlock", "hang", "race":
 				key := f.Kind + "|" + f.Label
 				if f.Kind != "assert" {
 					key = f.Kind + "|" + f.Msg
@@ -149,6 +149,11 @@ func (r *report) evaluate(hs []*harnessInfo, stats []*interp.HarnessStats, rb *r
 					wd = 5 * time.Second
 				}
 				res, err := rb.run(h.pkgDir, path, knownKeys, wd)
+				// schedule-dependent events cannot be forced natively: repeat the run
+				for rep := 0; err == nil && rep < 30 && ((f.Kind == "race" && !res.Race) ||
+					(f.Kind == "deadlock" && res.Outcome == "ok")); rep++ {
+					res, err = rb.run(h.pkgDir, path, knownKeys, wd)
+				}
 				if err != nil {
 					v.Native = "replay failed: " + err.Error()
 					v.Class = "inconclusive"
@@ -169,6 +174,8 @@ func (r *report) evaluate(hs []*harnessInfo, stats []*interp.HarnessStats, rb *r
 					ok = res.Outcome == "panic"
 				case "exit":
 					ok = res.Outcome == "exit"
+				case "race":
+					ok = res.Race
 				case "hang":
 					ok = res.Outcome == "hang"
 				case "deadlock":
